@@ -158,6 +158,11 @@ Definition side_root_height (l : list node) (main : list N) (x : N) : Z :=
 Definition load_keep (l : list node) (main : list N) (p : Z) (n : node) : bool :=
   on_chain main n || (p <? side_root_height l main (n_hash n))%Z.
 
+(* the same predicate, written so that evaluation stops at the first disjunct: vm_compute is
+   strict in the arguments of [orb], and the second disjunct is quadratic in the tree size *)
+Definition load_keep_lazy (l : list node) (main : list N) (p : Z) (n : node) : bool :=
+  if on_chain main n then true else (p <? side_root_height l main (n_hash n))%Z.
+
 Definition load_nodes (sn : snapshot) (depth : Z) : list node :=
   let l := sn_nodes sn in
   let main := chain_of l (sn_tip sn) in
@@ -165,13 +170,13 @@ Definition load_nodes (sn : snapshot) (depth : Z) : list node :=
   map (fun n =>
          if on_chain main n then mkNode (n_hdr n) (n_height n) (n_work n) (p <=? n_height n)%Z (n_first n)
          else mkNode (n_hdr n) (n_height n) (n_work n) true (n_first n))
-      (filter (load_keep l main p) l).
+      (filter (load_keep_lazy l main p) l).
 
 Definition load_ghosts (sn : snapshot) (depth : Z) : list (N * Z) :=
   let l := sn_nodes sn in
   let main := chain_of l (sn_tip sn) in
   let p := (height_of l (sn_tip sn) - depth)%Z in
-  map (fun n => (n_hash n, n_height n)) (filter (fun n => negb (load_keep l main p n)) l).
+  map (fun n => (n_hash n, n_height n)) (filter (fun n => negb (load_keep_lazy l main p n)) l).
 
 (* ---------------------------------------------------------------------------------- *)
 (* operations                                                                           *)
